@@ -184,4 +184,21 @@ CLAIMS.update({
              "runs) is the Go scheduler's; the theorems state enabledness, not eventual scheduling."),
 })
 
+CLAIMS.update({
+    'C14': dict(
+        text="PARTIAL PROOF. Proved in Lean on the byte-level model of the V2 record reader (tied to pkg/message by the fmt/damage "
+             "correspondence of C13/C07): any change confined to <= 4 consecutive bytes of the bytes a CRC covers changes the CRC-32C "
+             "(GF(2) algebra of the register, unconditional; in particular every single-bit flip); a record cut anywhere (both formats) is "
+             "classified end-of-data / short header / short data, never a record; a file cut inside a header is an error, not an end of data; "
+             "untouched records read back whatever surrounds them. The log-level statement over all read calls, multi-segment layouts and "
+             "damage positions is decided by the damaged-read correspondence: real logs, damaged copies reopened and swept with every read "
+             "call, judged against the model's answers on the undamaged log (never a differing message, overwritten record => error, other "
+             "segments answer as before, no panic, allocation bound).",
+        note=COMMON_NOTE + "Partial: CRC-32C cannot detect every 5-8 byte overwrite or every change of a length field (a 2^-32 chance of an "
+             "undetected change is inherent to the format, so the universally quantified statement is false of any implementation of this "
+             "format); those cases are observed, not proved. Open known finding KF-ZERO-V1 (zero fill from byte 0 of the segment with base 0).",
+        technique="Lean 4 theorems over a hand-written byte-level model (CRC algebra, record decoder) + damaged-read correspondence against the "
+                  "real log"),
+})
+
 NOT_APPLICABLE = []
